@@ -106,11 +106,12 @@ ResumeClass(r) ==
   \* the file read back is the image that was saved
   ELSE IF Bits(r.fromh, r.froml) # saved[r.k] THEN "new"
   \* set_up leaves the image alone, except that "the program will set all non-positive voxel values in the initial
-  \* estimate to small positive ones" when the positivity condition is enforced (variant 0: as configured)
+  \* estimate to small positive ones" when the positivity condition is enforced (variant 0: as configured); leaving
+  \* them alone on a resume is accepted as well (that is what the restart clause needs, see notes/C07-fix-1.diff)
   ELSE IF \A v \in 1..sys.nv :
             IF Positive(r.fromh[v], r.froml[v]) \/ ~(r.variant = 0 /\ I.eip)
             THEN r.afterh[v] = r.fromh[v] /\ r.afterl[v] = r.froml[v]
-            ELSE Positive(r.afterh[v], r.afterl[v])
+            ELSE Positive(r.afterh[v], r.afterl[v]) \/ (r.afterh[v] = r.fromh[v] /\ r.afterl[v] = r.froml[v])
        THEN "ok" ELSE "new"
 ResOf(r) == IF ResumeShape(r) THEN [k |-> r.k, variant |-> r.variant, changed |-> Bits(r.afterh, r.afterl) # Bits(r.fromh, r.froml)]
             ELSE NoRes
